@@ -916,6 +916,45 @@ def _s_find(I, s, lineno, sub, start=None, end=None):
     return z3.IndexOf(zs, to_z3(sub), st)
 
 
+def _s_rfind(I, s, lineno, sub, start=None, end=None):
+    """s.rfind(sub, start, end) for 0 <= start and 0 <= end: last occurrence lying wholly inside s[start:end]."""
+    zs = to_z3(s)
+    st = to_z3(0 if start is None else start)
+    en = z3.Length(zs) if end is None else to_z3(end)
+    for b in (start, end):
+        if b is None or (isinstance(b, int) and b >= 0):
+            continue
+        if is_sym_int(b):
+            # a symbolic bound must be known non-negative here (negative bounds count from the end in Python)
+            I.path.oblige(f'rfind.bound_is_non_negative@{lineno}', to_z3(b) >= 0, lineno)
+            continue
+        raise Unsupported('rfind with a negative bound')
+    en = z3.If(en > z3.Length(zs), z3.Length(zs), en)
+    # Over-approximation (sound for proving postconditions): the result is -1, or the position of *an* occurrence lying
+    # inside the window.  That it is the last one, and that -1 means "no occurrence", is not modelled.
+    zsub = to_z3(sub)
+    r = I.fresh('rfind', z3.IntSort())
+    I.path.assume(z3.Or(r == -1, z3.And(r >= st, r + z3.Length(zsub) <= en, z3.SubString(zs, r, z3.Length(zsub)) == zsub)))
+    I.used_summaries.add('str.rfind: some occurrence inside the window, or -1 (over-approximation)')
+    return r
+
+
+def _s_rstrip(I, s, lineno, chars=None):
+    """s.rstrip(c) for a single concrete character c: s == r + t with t in c* and r not ending in c.  The pieces are
+    recorded on the interpreter (I.rstrip_witness) so that specifications can name them."""
+    if not (isinstance(chars, str) and len(chars) == 1):
+        raise Unsupported('rstrip of a symbolic string needs one concrete character')
+    zs = to_z3(s)
+    r = I.fresh('rstrip_kept', z3.StringSort())
+    t = I.fresh('rstrip_cut', z3.StringSort())
+    I.path.assume(z3.And(zs == z3.Concat(r, t), z3.InRe(t, z3.Star(z3.Re(z3.StringVal(chars)))),
+                         z3.Not(z3.SuffixOf(z3.StringVal(chars), r))))
+    if not hasattr(I, 'rstrip_witness'):
+        I.rstrip_witness = []
+    I.rstrip_witness.append((zs, r, t))
+    return r
+
+
 def _s_index(I, s, lineno, sub, start=None):
     r = _s_find(I, s, lineno, sub, start)
     if I.path.branch(r < 0, f'index.notfound@{lineno}'):
@@ -999,6 +1038,7 @@ def _s_format(I, s, lineno, *args, **kwargs):
 SYM_STR_METHODS = {
     'startswith': _s_startswith, 'endswith': _s_endswith, 'find': _s_find, 'index': _s_index,
     'casefold': _s_casefold, 'lower': _s_casefold, 'replace': _s_replace, 'join': _s_join, 'format': _s_format,
+    'rfind': _s_rfind, 'rstrip': _s_rstrip,
 }
 STR_METHODS = {n: _concrete_str_method(n) for n in
                ['startswith', 'endswith', 'find', 'rfind', 'index', 'rindex', 'casefold', 'lower', 'upper',
